@@ -3,7 +3,7 @@ The SSC serializer as generated from simfile/base.py and simfile/ssc.py equals t
 simfile whose charts all have their note data — the case in which the Python code does not raise KeyError (`self[notes_key]`).
 -/
 import Simfile.Gen.Code.SerializeSSC
-import Simfile.Props.GenEq.Serialize
+import Simfile.Props.GenEq.Basic
 namespace Simfile.GenEq
 open Simfile
 
